@@ -277,6 +277,31 @@ example :
   subst hb
   exact ⟨rfl, rfl, ⟨[], rfl⟩, fun _ => rfl⟩
 
+/-! ### Cloned buffers as replacements -/
+
+/-- **A cloned buffer resumes at the requested offset.**  One half of `CloneStream()` of a CAS buffer
+(`Buf.clone`), opened unvalidated at offset `off` - as a chunk reader or as a reader - yields the
+source's bytes from `off` on: `toUnvalidatedReader(off)` / `toUnvalidatedChunkReader(off, m)` skip
+`off` bytes of the shared stream.  All C16 theorems above quantify over `Buf` and hence cover clone
+halves as base buffers and as replacements. -/
+theorem C16_clone_resumes_at_offset (d : Digest) (s : List Item) (off m : Nat) :
+    (openReader (.clone d s) off).rest = ((scan s).1.flatten).drop off ∧
+    (openChunks (.clone d s) off m).1.flatten = ((scan s).1.flatten).drop off :=
+  ⟨openReader_rest (.clone d s) off, openChunks_flatten (.clone d s) off m⟩
+
+example :
+    let D := [1, 2, 3, 4]
+    let d : Digest := ⟨4, fun x => x == D⟩
+    let base := Buf.reader d [.data [1, 2], .fail 1]
+    let h := [Resp.repl (.clone d [.data [1, 2, 3], .data [4]])]
+    Good D base ∧ GoodH D h ∧
+    (runOp base h (.reader [3, 3, 3])).result = .reads [([1, 2], .ok), ([], .ok), ([3, 4], .eof)] := by
+  refine ⟨⟨rfl, ⟨[3, 4], rfl⟩⟩, ?_, rfl⟩
+  intro b hb
+  simp only [List.mem_cons, Resp.repl.injEq, List.mem_nil_iff, or_false] at hb
+  subst hb
+  exact ⟨rfl, ⟨[], rfl⟩⟩
+
 /-! ### Stacked error handlers -/
 
 /-- **Exactly once through stacked handlers.**  A handler may answer with a buffer that carries an
